@@ -187,6 +187,7 @@ pub fn generate<W: Write>(prop: &str, tier: &str, seed: u64, out: &mut W) {
     match prop {
         "C16" => gen_c16(&mut r, thorough, out),
         "C01" => gen_c01(&mut r, thorough, out),
+        "C12" => gen_c12(&mut r, thorough, out),
         "C02" => gen_c02(&mut r, thorough, out),
         "C04" | "C05" => gen_map(&mut r, thorough, out),
         "C06" | "C07" | "C08" | "C10" | "C13" | "C14" => gen_hist(prop, &mut r, thorough, out),
@@ -894,5 +895,76 @@ fn gen_c02<W: Write>(r: &mut Rng, thorough: bool, out: &mut W) {
                 writeln!(out, "build2 w={w} k={k} rc={rc} recs={} alt={}", orig.join(","), alt.join(",")).unwrap();
             }
         }
+    }
+}
+
+
+// ------------------------------------------------------------------ C12: read sets
+
+fn gen_c12<W: Write>(r: &mut Rng, thorough: bool, out: &mut W) {
+    let rounds = if thorough { 20000 } else { 400 };
+    for _ in 0..rounds {
+        let k = *r.pick(&[5usize, 7, 9, 15, 21, 31, 33, 63]);
+        let w = if k <= 31 && r.chance(4, 5) { 64 } else { 128 };
+        let rc = r.below(2);
+        let mc = 1 + r.below(6);
+        let mq = *r.pick(&[0usize, 2, 10, 20, 30, 40]);
+        let qf = *r.pick(&["none", "middle", "strict"]);
+        // a small genome, reads drawn from both strands with errors, so that counts hit mc-1, mc, mc+1
+        let glen = k + 3 + r.below(4 * k);
+        let mut genome = rand_acgt(r, glen);
+        if r.chance(1, 4) {
+            // a self-reverse-complement arm pair somewhere
+            let h = (k - 1) / 2;
+            if glen >= k {
+                let p = r.below(glen - k + 1);
+                let l = rand_acgt(r, h);
+                let rcl = revcomp(&l);
+                genome[p..p + h].copy_from_slice(&l);
+                genome[p + h + 1..p + k].copy_from_slice(&rcl);
+            }
+        }
+        let nreads = 1 + r.below(3 * mc + 2);
+        let mut files: [Vec<String>; 2] = [Vec::new(), Vec::new()];
+        for fi in 0..2 {
+            let n = if fi == 0 { nreads } else { r.below(nreads + 1) + 1 };
+            for _ in 0..n {
+                let len = usize::min(glen, k + r.below(2 * k + 1));
+                let start = r.below(glen - len + 1);
+                let mut sq: Vec<u8> = genome[start..start + len].to_vec();
+                if r.chance(1, 2) {
+                    sq = revcomp(&sq);
+                }
+                if r.chance(1, 4) {
+                    let p = r.below(len);
+                    sq[p] = *r.pick(&ACGT);
+                }
+                if r.chance(1, 8) {
+                    let p = r.below(len);
+                    sq[p] = b'N';
+                }
+                // qualities around the threshold: mq-1, mq, mq+1 and far values
+                let q: Vec<u8> = (0..len)
+                    .map(|_| {
+                        let v = match r.below(8) {
+                            0 => mq.saturating_sub(1),
+                            1 => mq,
+                            2 => mq + 1,
+                            3 => 0,
+                            _ => 41,
+                        };
+                        b'A' + usize::min(v, 41) as u8
+                    })
+                    .collect();
+                files[fi].push(format!("{}:{}", String::from_utf8(sq).unwrap(), String::from_utf8(q).unwrap()));
+            }
+        }
+        writeln!(
+            out,
+            "reads w={w} k={k} rc={rc} mc={mc} mq={mq} qf={qf} r1={} r2={}",
+            files[0].join(","),
+            files[1].join(",")
+        )
+        .unwrap();
     }
 }
